@@ -132,6 +132,33 @@ func (c *channel) cancelPendingMsgs() {
 	}
 }
 
+// pendingMsgs returns the IDs of the messages that are awaiting a response.
+func (c *channel) pendingMsgs() []uint64 {
+	c.responseMut.Lock()
+	defer c.responseMut.Unlock()
+	ids := make([]uint64, 0, len(c.responseRouters))
+	for msgID := range c.responseRouters {
+		ids = append(ids, msgID)
+	}
+	return ids
+}
+
+// cancelMsgs responds with a stream is down error to those of the given messages that are still pending.
+func (c *channel) cancelMsgs(ids []uint64) {
+	c.responseMut.Lock()
+	defer c.responseMut.Unlock()
+	for _, msgID := range ids {
+		if router, ok := c.responseRouters[msgID]; ok {
+			verifMsg("msg.cancel", c, msgID)
+			router.c <- response{nid: c.node.ID(), err: streamDownErr}
+			// delete the router if we are only expecting a single reply message
+			if !router.streaming {
+				delete(c.responseRouters, msgID)
+			}
+		}
+	}
+}
+
 func (c *channel) routeResponse(msgID uint64, resp response) {
 	c.responseMut.Lock()
 	defer c.responseMut.Unlock()
@@ -317,14 +344,18 @@ func (c *channel) receiver() {
 		if err != nil {
 			verifPoint("rcv.err", c)
 			c.streamBroken.set()
+			// The messages pending at this point were sent on (or are queued for) the
+			// stream that failed. Once the lock is released, the sender may re-establish
+			// the stream and send further messages on it; those will be answered.
+			pending := c.pendingMsgs()
 			c.streamMut.RUnlock()
 			verifPoint("rcv.unlocked", c)
 			verifMsg("rcv.failed", c, 0)
 			c.setLastErr(err)
 			// we only reach this point when the stream failed AFTER a message
 			// was sent and we are waiting for a reply. We thus need to respond
-			// with a stream is down error on all pending messages.
-			c.cancelPendingMsgs()
+			// with a stream is down error on the messages that were pending.
+			c.cancelMsgs(pending)
 			// attempt to reconnect indefinitely until the node is closed.
 			// This is necessary when streaming is enabled.
 			c.reconnect(-1)
